@@ -135,8 +135,8 @@ static double dyad(Rng & r, int bits, double scale)
   return std::round(r.uni(-scale, scale) * q) / q;
 }
 
-static const char * JKIND[] = {"full", "rankdef", "zerocol", "dupcol", "wide", "illscaled", "sparse", "tiny", "dyadic", "zeroJ"};
-constexpr int NJK           = 10;
+static const char * JKIND[] = {"full", "rankdef", "zerocol", "dupcol", "wide", "illscaled", "sparse", "tiny", "dyadic", "zeroJ", "small_units"};
+constexpr int NJK           = 11;
 static const char * RKIND[] = {"rand", "zero", "consistent", "big", "tinyr", "near_orth"};
 constexpr int NRK           = 6;
 static const char * DKIND[] = {"colnorm_clamped", "loguni", "ones"};
@@ -193,6 +193,9 @@ static void gen_tr(FILE * out, Rng & rng, int idx)
       for (int j = 0; j < n; ++j) J(i, j) = dyad(rng, 4, 4.0);
     break;
   case 9: J.setZero(); break;
+  case 10:  // Jacobian in small units / small weights: every entry of J'J is far below 1 (1e-18..1e-10)
+    J *= rng.logu(1e-9, 1e-5);
+    break;
   default: break;
   }
   VectorXd r(m);
@@ -226,7 +229,12 @@ static void gen_tr(FILE * out, Rng & rng, int idx)
     d.setOnes();
   }
   const double Delta  = rng.logu(1e-6, 1e6);
-  const double lambda = rng.below(4) == 0 ? 1. / Delta : rng.logu(1e-6, 1e6);
+  double lambda       = rng.below(4) == 0 ? 1. / Delta : rng.logu(1e-6, 1e6);
+  if (jk == 10 && rng.below(2)) {
+    // regularisation of the same order as J'J so that neither term of H = J'J + lambda D^2 is negligible
+    const double h = (J.transpose() * J).diagonal().maxCoeff(), dd = d.cwiseAbs2().maxCoeff();
+    if (h > 0 && dd > 0) lambda = rng.logu(1e-2, 1e2) * h / dd;
+  }
   std::string tag = std::string("J=") + JKIND[jk] + ",r=" + RKIND[rk] + ",d=" + DKIND[dk] + ",m=" + std::to_string(m)
                   + ",n=" + std::to_string(n);
   emit_tr(out, JKIND[jk], J, d, r, Delta, lambda, tag);
